@@ -880,6 +880,12 @@ def combinator_model(facts, inner=None, depth=0, field_model=None, callees=None)
                     return V("None", None)
                 return ("s", frozenset([a0, V("None", None)]))
             return None
+        if p.endswith("Result::map_err"):
+            if va == "Ok":
+                return a0
+            if va == "Err":
+                return V("Err", None)
+            return None
         if p.endswith(("Option::unwrap_or", "Result::unwrap_or")):
             if va in ("None", "Err"):
                 return argv[1]
